@@ -427,8 +427,10 @@ func runC09SameNamedTypes(c *CaseCtx, r *rand.Rand) (res CaseResult) {
 		if r.Intn(2) == 0 {
 			args[0], args[1] = args[1], args[0]
 		}
-		if r.Intn(3) == 0 {
-			args = append(args, am.FilterInput(am.FilterType(types[0])))
+		if r.Intn(4) != 0 {
+			// the redefined function may only ask for interface values: the
+			// T4 has to be planned through one of the two converters
+			args = append(args, am.FilterInput(func(v am.Value) bool { return v.Type.Kind() == reflect.Interface }))
 		}
 		func() {
 			defer func() {
